@@ -25,7 +25,7 @@ def set_lit(xs):
 def is_event_source(f):
     """vec_300 (random bases), vec_302/303 and vec_5xx (histories) feed `ys record`, not `ys run`."""
     n = int(re.match(r"vec_(\d+)", f).group(1))
-    return n in (300, 302, 303) or n >= 500
+    return n in (300, 302, 303) or 500 <= n < 600
 
 
 def judge_probe(p, r):
@@ -82,7 +82,7 @@ def run(ctx):
     # 1. the spec's own well-formedness (design level; a failure is my fault, exit 2)
     pool = cf.ThreadPoolExecutor(max_workers=1)
     mc = pool.submit(ctx.tlc, "YangStmtMC", "YangStmtMC.cfg", workers=8, timeout=800, heap="6g",
-                     consts={"MaxCount": 2 if quick else 3})
+                     consts={"MaxCount": 2 if quick else 3, "Thorough": "FALSE" if quick else "TRUE"})
     time.sleep(0.3)      # let the MC run take its scratch directory number first
     # 2. probes
     # every family the spec defines: 1..68 parents, 101.. (argument kind, statement) pairs, 200.. order / revision / keyword table / random
@@ -155,7 +155,7 @@ def run(ctx):
         raise Infra("no accepted unmutated event to corrupt for the trace self-test")
     with open(events, "a") as fh:
         fh.write(json.dumps(dict(good, id=SELFTEST_ID, parseOk=False, ok=False, err="self-test: corrupted event"), separators=(",", ":")) + "\n")
-    fails, nev, evverd = validate_events(ctx, events, nproc=4 if quick else 8)
+    fails, nev, evverd = validate_events(ctx, events, nproc=3 if quick else 8)
     st = [f for f in fails if f["id"] == SELFTEST_ID]
     if len(st) != 1 or st[0]["what"] != "valid-rejected-by-parse":
         raise Infra("trace self-test failed: the corrupted event was not rejected by YangStmtTrace")
